@@ -120,6 +120,9 @@ func slowDrainOnce(addr, limit string, n int, keepalive int, dir string, wait ti
 func runSlowDrain(cfg *hx.RunCfg) error {
 	hx.Quiet()
 	limit, n, keep, dir := "8KB", 4<<20, 0, "up"
+	if cfg.Extra == "" {
+		cfg.Extra = "8KB,4194304,0,up"
+	}
 	if cfg.Extra != "" {
 		p := strings.Split(cfg.Extra, ",")
 		if len(p) == 4 {
@@ -131,6 +134,16 @@ func runSlowDrain(cfg *hx.RunCfg) error {
 	got, same, eof, took, err := slowDrainOnce("127.0.1.8", limit, n, keep, dir, 12*time.Minute)
 	fmt.Printf("slowdrain limit=%s bytes=%d keepalive=%d dir=%s: reader got %d bytes, identical=%v, clean EOF=%v, after %v, err=%v\n", limit, n, keep, dir, got, same, eof, took.Round(time.Millisecond), err)
 	cfg.St["cases"] = 1
-	cfg.St["got"], cfg.St["sent"], cfg.St["identical"] = got, n, same
+	cfg.St["distinct_nontrivial"] = 1
+	cfg.St["got"], cfg.St["sent"], cfg.St["identical"], cfg.St["seconds"] = got, n, same, int(took.Seconds())
+	cfg.St["samples"] = []string{fmt.Sprintf("slowdrain limit=%s bytes=%d keepalive=%d dir=%s: reader got %d, identical=%v, clean EOF=%v after %v", limit, n, keep, dir, got, same, eof, took.Round(time.Second))}
+	if err != nil {
+		cfg.St["impl_failures"] = []map[string]string{{"key": "slowdrain-setup", "what": "slow-receiver replay did not run: " + err.Error(), "case": cfg.Extra}}
+	} else if keep == 0 && got < n && eof {
+		// the recorded finding F-C01c, replayed for real
+		cfg.St["observed_findings"] = []map[string]string{{"key": "tunnel-close:yamux-stream-close-timeout-slow-receiver",
+			"what": fmt.Sprintf("tcpMux on, default yamux StreamCloseTimeout: %d bytes written and closed, receiver draining at %s/s got %d bytes followed by a clean end of stream after %v", n, limit, got, took.Round(time.Second)),
+			"case": "work/h_c01 slowdrain -extra " + cfg.Extra}}
+	}
 	return nil
 }
